@@ -817,8 +817,22 @@ func (m *Model) recvData(ev *Event) {
 			if want := m.H.RespByte(s.Token, off+int64(i)); b != want {
 				// reported by Finish, once it is known whether the stream was
 				// reset while this frame was being written
-				s.Mismatch = fmt.Sprintf("stream %d: response body byte %d is %#x, the handler wrote %#x there (DATA frame of %d bytes at offset %d, log #%d)",
-					s.ID, off+int64(i), b, want, len(ev.Data), off, ev.Seq)
+				end := i + 24
+				if end > len(ev.Data) {
+					end = len(ev.Data)
+				}
+				wantBytes := make([]byte, 0, 24)
+				for k := i; k < end; k++ {
+					wantBytes = append(wantBytes, m.H.RespByte(s.Token, off+int64(k)))
+				}
+				nbad := 0
+				for k := range ev.Data {
+					if ev.Data[k] != m.H.RespByte(s.Token, off+int64(k)) {
+						nbad++
+					}
+				}
+				s.Mismatch = fmt.Sprintf("stream %d: response body byte %d is %#x, the handler wrote %#x there (DATA frame of %d bytes at offset %d, log #%d; %d of its bytes differ; received % x, handler wrote % x)",
+					s.ID, off+int64(i), b, want, len(ev.Data), off, ev.Seq, nbad, ev.Data[i:end], wantBytes)
 				break
 			}
 		}
@@ -976,11 +990,17 @@ func (m *Model) Finish(f EndFacts) {
 		if s.Mismatch == "" {
 			continue
 		}
-		// a frame that was being written while the stream was reset is still a
-		// frame of this stream: its payload must be the handler's bytes
-		if s.ClientRst || s.SrvRst || s.SrvRstMaybe {
-			m.viol(-1, "outbound:content-mismatch:frame-in-flight-at-stream-reset", "%s; the stream was reset right after (client RST_STREAM sent: %v, server RST_STREAM received: %v)",
-				s.Mismatch, s.ClientRst, s.SrvRst || s.SrvRstMaybe)
+		// A frame of a stream that later finishes normally was written while
+		// its handler was waiting for it. A frame of a stream that was
+		// aborted (RST_STREAM from either side, or a session error/close -
+		// the server may have reset the stream without the RST_STREAM ever
+		// reaching us) may have been in flight when the handler's write was
+		// cut short; it is still a frame of this stream and must carry the
+		// handler's bytes. The two shapes are kept apart.
+		if !s.SrvFin {
+			m.viol(-1, "outbound:content-mismatch:frame-in-flight-at-stream-abort",
+				"%s; the stream never finished (client RST_STREAM sent: %v, server RST_STREAM received: %v, GOAWAY received: %v)",
+				s.Mismatch, s.ClientRst, s.SrvRst || s.SrvRstMaybe, m.GoAwayRecv)
 		} else {
 			m.viol(-1, "outbound:content-mismatch", "%s", s.Mismatch)
 		}
